@@ -39,6 +39,7 @@ def op_val(o):
         return [4, o[1], int(o[2])]
     if t == 'startdef': return [5]
     if t == 'enddef': return [6]
+    if t == 'odef': return [8, int(o[1])]
     if t == 'sync': return [7, o[1], o[2]]
     raise ValueError(o)
 
@@ -70,6 +71,9 @@ def op_coq(o):
         return '(NhValidity %s %s)' % (cN(o[1]), cbool(o[2]))
     if t == 'startdef': return 'StartDeferral'
     if t == 'enddef': return 'EndDeferral'
+    # the deferral of ANOTHER family starts / ends: nothing happens in the (one-family) model -- rendered as the
+    # reachability report of a next hop no path uses
+    if t == 'odef': return '(NhValidity 4094 true)'
     raise ValueError(o)
 
 def case_val(c):
@@ -248,6 +252,8 @@ class RefRib:
             self.deferring = True
         elif t == 'enddef':
             self.deferring = False
+        elif t == 'odef':
+            pass        # another family's deferral
         for net in list(self.paths):
             if not self.paths[net]:
                 del self.paths[net]
